@@ -41,17 +41,25 @@ def consts(fam, adds, post, fix, br=1, aftererr=1):
     return c
 
 
+def _tlc(name, text, **kw):
+    """vlib.tlc with one retry when the JVM died for a reason that is not about the spec (scratch files vanished, out of memory ...)."""
+    run = vlib.tlc("EinoBuild", name, files={name: text}, heap="6g", **kw)
+    if run.error == "other" and not run.timed_out and ("Exception" in run.stdout or "java.lang" in run.stdout) and "Parse Error" not in run.stdout:
+        log("  note: TLC run %s failed for a reason outside the specification, retrying once" % name)
+        run = vlib.tlc("EinoBuild", name, files={name: text}, heap="6g", **kw)
+    return run
+
+
 def model(fam, adds, post, fix, invariants, *, timeout=900, workers=4, br=1, aftererr=1):
     name = "mc_%s_%d_%d.cfg" % (fam, adds, post)
-    return vlib.tlc("EinoBuild", name, files={name: cfg_text(consts(fam, adds, post, fix, br, aftererr), invariants)}, workers=workers,
-                    timeout=timeout, heap="6g")
+    return _tlc(name, cfg_text(consts(fam, adds, post, fix, br, aftererr), invariants), workers=workers, timeout=timeout)
 
 
 def gen(fam, adds, post, *, simulate=None, depth=None, seed=None, timeout=900, workers=4, br=1, aftererr=1, fix=None, limit=None):
     """Enumerate (or sample with -simulate) the maximal call sequences of one family; predictions = the model as coded."""
     name = "gen_%s_%d_%d.cfg" % (fam, adds, post)
-    run = vlib.tlc("EinoBuild", name, files={name: cfg_text(consts(fam, adds, post, fix or AS_CODED, br, aftererr), ["Emit"])},
-                   workers=workers, timeout=timeout, heap="6g", simulate=simulate, depth=depth, seed=seed)
+    run = _tlc(name, cfg_text(consts(fam, adds, post, fix or AS_CODED, br, aftererr), ["Emit"]),
+               workers=workers, timeout=timeout, simulate=simulate, depth=depth, seed=seed)
     vlib.tlc_must_pass(run, "case generation %s" % fam)
     seen, out = set(), []
     for t in run.tagged("CASE"):
